@@ -190,6 +190,7 @@ func runEngines(es engineSet, tier string, sink *report.Sink) (errs []string) {
 			if err := m.ReportDecisions(sink); err != nil {
 				errs = append(errs, "variants: "+err.Error())
 			}
+			m.ReportModes(sink, xs)
 		}
 		if !es.noRegen {
 			ys, yerr := regenInstances(repo.Dir, tier, sink)
